@@ -313,6 +313,7 @@ def parts(tier):
     from . import c02, c04
 
     return [
+        Part("acidtable", check, cases=lambda: e2e.acid_table("acidtable"), exhaustive=True),
         Part("nettable", check, cases=lambda: e2e.network_cases("nettable", tier), exhaustive=True),
         Part("na", check_na, strategy=c02.na_case().map(_ideal_na), budget=dict(quick=160, thorough=3000)),
         Part("tiptable", check, cases=lambda: c04.tip_cases(tier), exhaustive=True),
